@@ -12,19 +12,25 @@ CONFIGS = {
     "fin1": (annenv.tcfg(cyclic=4, annTTL=12, collect=1, reps=1, base=1), 12, 4, 18, True),
     "init": (annenv.tcfg(cyclic=3, annTTL=9, collect=0, initMin=2, initMax=2, reps=2, base=1), 9, 3, 14, True),
     "inf":  (annenv.tcfg(cyclic=4, annTTL=FOREVER, collect=0), FOREVER, 0, 10, False),
+    # infinite TTLs with a send-collection window: a StopOffer and the next Offer can share one datagram.
+    # graceful disturbances only (crash / restart with infinite TTLs is what known finding F1 is about: config "inf")
+    "inf1": (annenv.tcfg(cyclic=4, annTTL=FOREVER, collect=1), FOREVER, 0, 11, False),
 }
+GRACEFUL_ONLY = {"inf1"}
 
 
 def mcfg(name):
     return {"bound": CONFIGS[name][3], "needAlive": CONFIGS[name][1] == FOREVER}
 
 
-def gen_faults(rng, lossy, n_max, t_max):
+def gen_faults(rng, lossy, n_max, t_max, graceful=False):
     out = []
     t = 0
     for _ in range(rng.randint(1, n_max)):
         t += rng.choice([0, 1, 1, 2, 3, 4, 5, 7, 12, 17])
         kinds = ["crash", "crash", "stop", "stop"] + (["loss", "drop", "dup", "delay"] if lossy else [])
+        if graceful:
+            kinds = ["stop"]
         k = rng.choice(kinds)
         node = rng.choice(["srv", "wat"])
         if k == "crash":
@@ -86,7 +92,7 @@ def traces_for(seed, count, n_max):
     for n in range(count):
         rng = random.Random("c04/%s/%s" % (seed, n))
         name = names[n % len(names)]
-        faults = gen_faults(rng, CONFIGS[name][4], n_max, 60) if n >= len(names) else []
+        faults = gen_faults(rng, CONFIGS[name][4], n_max, 60, name in GRACEFUL_ONLY) if n >= len(names) else []
         ev = run(name, faults)
         out.append({"cfg": mcfg(name), "ev": monpass.add_adv(ev), "faults": faults, "config": name,
                     "diag": {"config": name, "pattern": "F1" if f1_pattern(ev, name) else "",
@@ -156,15 +162,18 @@ def check(ctx):
                    "diag": {"config": "inf", "pattern": "F1" if f1_pattern(ev, "inf") else "", "faults": [(f["t"], f["kind"], f["node"]) for f in f1]}})
     pairs = [("crash", "restart", "srv"), ("crash", "restart", "wat"), ("stop", "start", "srv"), ("stop", "start", "wat"),
              ("loss_on", "loss_off", None)]
-    for name in (["fin", "inf"] if ctx.quick else list(CONFIGS)):
+    for name in (["fin", "inf", "inf1"] if ctx.quick else list(CONFIGS)):
         kn = [p for p in pairs if CONFIGS[name][4] or p[2] is not None]
+        if name in GRACEFUL_ONLY:
+            kn = [p for p in kn if p[0] == "stop"]
         traces += sweep(name, kn, range(0, ctx.pick(10, 24)), ctx.pick([0, 1, 3, 13], [0, 1, 2, 3, 4, 5, 8, 13, 20]))
     bad, ms = judge(ctx, "Mon_C04", traces, "two-stack runs", payload)
     cov = dict(evaluations=len(traces), distinct_nontrivial=len({str(t["faults"]) + t["config"] for t in traces if t["faults"]}),
                rule="fault schedules for two real stacks on a simulated network: (a) every tick of the first 10-24 x every gap for "
                     "crash+restart / stop+start of either peer and a loss window, finite TTL with refresh and infinite TTL without; "
                     "(b) seeded random multi-fault schedules (up to 4-7 disturbances: crash, restart, stop, start, loss window, "
-                    "single drop / duplication / delay) in four timing configurations; distinct = distinct non-empty schedules; "
+                    "single drop / duplication / delay) in five timing configurations (one with infinite TTLs and a send-collection "
+                    "window, graceful stop/start only); distinct = distinct non-empty schedules; "
                     "judged by the TLA+ monitor Mon_C04 in TLC at every idle instant",
                monitor_traces=len(traces), monitor_failures=bad, monitor_states=ms,
                samples=[{"config": traces[5]["config"], "faults": traces[5]["faults"],
